@@ -235,6 +235,16 @@ class World:
         self.make_handles()
 
     def make_handles(self):
+        try:
+            self._make_handles()
+        except Mismatch:
+            raise
+        except Exception as e:  # noqa: BLE001 - opening, copying or pickling a handle and fetching its document
+            raise Mismatch("C05", "C05:handles:raised",
+                           f"world {self.mode}: opening / copying the handles raised {type(e).__name__}: "
+                           f"{str(e)[:200]}", f"C05:handles:raised:{type(e).__name__}")
+
+    def _make_handles(self):
         sc = self.run.sc
         self.handles = []
         self.held = {}  # (target, handle) -> {"doc": document object, "d": nested mapping} kept by the caller
